@@ -50,7 +50,7 @@ def random_params(rng, small=False):
              r_sensitive=rng.choice([10, 100, 7.5]), r_user=rng.choice([10, 100, 3]),
              exploit_cost=rng.choice([1, 2, 1.5]), privesc_cost=rng.choice([1, 3]),
              exploit_probs=rng.choice([1.0, 0.5, "mixed", None]), privesc_probs=rng.choice([1.0, 0.75, None]),
-             uniform=rng.random() < 0.4, alpha_H=rng.choice([2.0, 0.5, 5.0]), alpha_V=rng.choice([2.0, 0.5, 3.0]),
+             uniform=rng.random() < 0.4, alpha_H=rng.choice([2.0, 0.5, 5.0, 1.0, 1]), alpha_V=rng.choice([2.0, 0.5, 3.0]),
              lambda_V=rng.choice([1.0, 2.0, 0.5]), restrictiveness=rng.randint(1, 4), random_goal=rng.random() < 0.4,
              base_host_value=rng.choice([1, 0, 0.5]), host_discovery_value=rng.choice([1, 0, 2]),
              step_limit=rng.choice([None, 500]))
